@@ -765,6 +765,7 @@ def run(res, tier):
     stale_cursor_rule(res, fx)
     queue_ends_rule(res, fx)
     codec_direction_rule(res, fx)
+    codec_kept_rule(res, fx)
     # a frame length decoded as a signed narrow integer must not be sign-extended into the unsigned size it is used as (the rule itself lives with TAINT in C02; here the source is
     # recognised syntactically: a value produced by one of the byte-order decoding helpers)
     from .C02 import sign_extend_sites
@@ -782,3 +783,36 @@ def run(res, tier):
                        'WebSocket masking and the template cache are not decided.' % n_sites)
     res.assumptions = ['DataIO::Read/Write return the number of bytes actually transferred']
     res.not_decided = ['exact sequence delivery for every segmentation and interleaving of input/output calls', 'zlib and template-cache state staying in step', 'text line splitting and SLIP/WebSocket framing']
+
+
+def codec_kept_rule(res, fx):
+    """a zlib stream is stateful in both directions (dependent deflate): the receive codec must survive frames that are not deflated (small Messages are sent with the default encoding
+    in the middle of a zlib stream), so the codec object is thrown away only to be replaced by one of another level"""
+    res.rule('CODEC-KEPT', 'MessageIOGateway::GetCodec discards the codec it was handed (delete / assignment of NULL) only on paths that go on to store a newly created codec in the same place', floor=1)
+    fs = [g for g in fx.funcs.values() if g.full and g.q == 'muscle::MessageIOGateway::GetCodec']
+    if not fs:
+        raise AnalysisBroken('CODEC-KEPT: MessageIOGateway::GetCodec has no analysed body')
+    f = fs[0]
+    refp = [p_['d'] for p_ in f.params if 'ZLibCodec' in (f.ptype(p_) or '') and '&' in (f.ptype(p_) or '')]
+    if not refp:
+        raise AnalysisBroken('CODEC-KEPT: GetCodec has no ZLibCodec*& parameter')
+    d = refp[0]
+    drops, stores = [], []
+    for n in f.walk():
+        if n['k'] == 'CXXDeleteExpr' and n['ch'] and A.strip_casts(n['ch'][0]).get('d') == d:
+            drops.append(n)
+        if n['k'] == 'BinaryOperator' and n.get('op') == '=' and A.strip_casts(n['ch'][0]).get('d') == d:
+            if any(x['k'] == 'CXXNewExpr' for x in A.walk_through_locals(f, n['ch'][1])):
+                stores.append(n)
+            else:
+                drops.append(n)
+    if not stores:
+        raise AnalysisBroken('CODEC-KEPT: GetCodec never stores a new codec')
+    for (i, dr) in enumerate(sorted(drops, key=lambda n: n['i'])):
+        ok, path = P.must_follow(f, dr, stores)
+        res.ob('CODEC-KEPT', f.where(dr), 'GetCodec: the codec is dropped only to be replaced', bool(ok), function=f.q, key='CODEC-KEPT|%s|%d' % (f.q, i),
+               message='MessageIOGateway::GetCodec throws the codec away on a path that does not create a new one: the receiver asks for a codec with the encoding of EVERY incoming header, and a zlib sender '
+                       'transmits small Messages un-deflated with the default encoding in the middle of its stream — the inflater and the dictionary the sender\'s dependent deflate stream still relies '
+                       'on are lost, the next deflated Message fails to inflate and the rest of the stream is never delivered')
+    if not drops:
+        res.ob('CODEC-KEPT', f.where(), 'GetCodec never drops the codec', True, nontrivial=False, function=f.q, key='CODEC-KEPT|%s|none' % f.q, message='')
